@@ -43,8 +43,28 @@
    enabled threads; it also checks the hypotheses sched_wf, sched_fair (extracted checker
    sched_fairb, proved sound) and prog_wf on every trace, and that a trace ending in a state
    with no enabled thread ends with every thread exited.
-   Byte-identity of pooled writer output and equality of pooled sorter output are checked by
-   engines wr and so with real threads (pools 0..8). *)
+   THE WRITER AND SORTER CLAUSES (second part of this file; proofs/WriterPooled.v,
+   WriterPooledIds.v, SorterPooled.v):
+   T13w_any_interleaving - the pooled writer of writer.c as a deferred writer (flush = snapshot of
+     options, last key and raw block + dispatch; worker = the pure compress step; ordered handler =
+     _mtbl_writer_write_data_block; finish waits for every job): for EVERY interleaving of the
+     caller's adds with the handler's callbacks (each callback at any point where a job is
+     outstanding) the outcome equals the sequential writer's - the same writer value, hence the
+     same file bytes and metadata, and the same result of every add; an assertion fails in the one
+     iff it fails in the other.
+   T13w_handler_order - in every complete run of the pool LTS on the writer's pool calls the
+     ordered handler receives the jobs 0, 1, ..., n-1 in this order (a prefix at every reachable
+     state): any pool size, any schedule.
+   T13w_pooled_writer_same_file / T13w_callbacks_anywhere - the composition: the handler applied
+     to the jobs in the order the LTS delivered their ids, callbacks at arbitrary positions
+     between the adds, then the finish = the sequential session (bytes, metadata, add results).
+   T13s_every_chunk_once / T13s_pooled_sorter / T13s_pooled_sorter_same_entries - the unordered
+     handler of the sorter collects every chunk exactly once in SOME order (a permutation); the
+     sorter iterating over its chunks in that order yields strictly ascending distinct keys, each
+     value a fold of the merge function over exactly the values added for the key (associative
+     merge functions); and with a commutative merge function the drained output EQUALS the one
+     without a pool (commutativity machine-checked necessary: T13s_needs_commutativity).
+   Engines wr and so additionally compare pooled and unpooled output with real threads (pools 0..8). *)
 From Coq Require Import NArith List Lia Permutation.
 From Mtbl Require Import model.Bytes model.Pool proofs.PoolProofs proofs.PoolSched proofs.PoolBase proofs.PoolInv proofs.PoolLife proofs.PoolStep2
   proofs.PoolAbort proofs.PoolDelivery proofs.PoolExact proofs.PoolCex proofs.PoolOrdered
@@ -173,3 +193,148 @@ Example T13_hypotheses :
 Proof.
   split; [exact cex_rogue_wake_not_wf|]. split; [exact cex_d_sched_wf|]. split; [exact full_sched_wf|exact T13d_fair_hypotheses_met].
 Qed.
+
+
+(* ================================================================================================ *)
+(* The writer and sorter clauses of C13: composition of the pool theorems with the writer / sorter   *)
+(* models (proofs/WriterPooled.v, WriterPooledIds.v, SorterPooled.v)                                 *)
+(* ================================================================================================ *)
+From Coq Require Import ZArith Sorting.Sorted.
+From Mtbl Require Import gen.Consts model.Order model.Block model.Writer model.Heap model.Merger model.Sorter spec.MergeSpec
+  proofs.SorterProofs proofs.MergerProofs proofs.SorterFull proofs.SorterMore proofs.WriterPooled proofs.WriterPooledIds proofs.SorterPooled.
+Import ListNotations.
+
+Section C13_writer.
+Variable compress_default : N -> bytes -> res bytes.
+Variable compress_level : N -> Z -> bytes -> res bytes.
+
+(* every interleaving of adds and (enabled) callbacks, then the finish = the sequential session *)
+Theorem T13w_any_interleaving : forall o off evs,
+  no_finish evs = true -> delivers_enabled compress_default compress_level (dinit o off) evs = true ->
+  prun_events compress_default compress_level o off (evs ++ [EFinish]) =
+    match writer_session compress_default compress_level o off (erase evs) with
+    | Ok (w, rs) => Ok (w, [], rs)
+    | _ => Abort
+    end.
+Proof. exact (WP1 compress_default compress_level). Qed.
+
+(* the composition with the LTS: handler calls in the order the pool delivered the job ids *)
+Theorem T13w_pooled_writer_same_file : forall o off ops wc jobs rs w rs',
+  caller_session compress_default compress_level o off ops = Ok (wc, jobs, rs) ->
+  writer_session compress_default compress_level o off ops = Ok (w, rs') ->
+  forall maxt s st stash,
+  sched_wf (pool_init maxt (writer_prog (length jobs))) [] s ->
+  prun (pool_init maxt (writer_prog (length jobs))) [] s = Some (st, stash) ->
+  all_done st ->
+  exists w', handler_session compress_default compress_level wc jobs (delivered_ids st 0) = Ok w' /\
+             writer_bytes w' = writer_bytes w /\ w_m w' = w_m w /\ rs' = rs.
+Proof. exact (WP3_bytes compress_default compress_level). Qed.
+
+(* ... both outcomes: Ok with the same writer, or an assertion fails in both *)
+Theorem T13w_pooled_writer_same_outcome : forall o off ops wc jobs rs,
+  caller_session compress_default compress_level o off ops = Ok (wc, jobs, rs) ->
+  forall maxt s st stash,
+  sched_wf (pool_init maxt (writer_prog (length jobs))) [] s ->
+  prun (pool_init maxt (writer_prog (length jobs))) [] s = Some (st, stash) ->
+  all_done st ->
+  match writer_session compress_default compress_level o off ops with
+  | Ok (w, rs') => handler_session compress_default compress_level wc jobs (delivered_ids st 0) = Ok w /\ rs' = rs
+  | _ => handler_session compress_default compress_level wc jobs (delivered_ids st 0) = Abort
+  end.
+Proof. exact (WP3 compress_default compress_level). Qed.
+
+(* callbacks at arbitrary positions between the adds, ids from a complete run of the LTS *)
+Theorem T13w_callbacks_anywhere : forall o off ievs rest n,
+  dispatched_total compress_default compress_level o off ievs n ->
+  irun compress_default compress_level (writer_init o off, []) ievs <> Fail ->
+  forall maxt s st stash,
+  sched_wf (pool_init maxt (writer_prog n)) [] s ->
+  prun (pool_init maxt (writer_prog n)) [] s = Some (st, stash) ->
+  all_done st ->
+  calls ievs ++ rest = delivered_ids st 0 ->
+  isession compress_default compress_level o off ievs rest =
+    match writer_session compress_default compress_level o off (iadds ievs) with
+    | Ok (w, rs) => Ok (w, rs)
+    | _ => Abort
+    end.
+Proof. exact (WP3i compress_default compress_level). Qed.
+End C13_writer.
+Print Assumptions T13w_any_interleaving.
+Print Assumptions T13w_pooled_writer_same_file.
+Print Assumptions T13w_pooled_writer_same_outcome.
+Print Assumptions T13w_callbacks_anywhere.
+
+(* what the ordered handler of the writer receives: 0, 1, ..., n-1; a prefix at every reachable state *)
+Theorem T13w_handler_order : forall maxt n s st stash,
+  sched_wf (pool_init maxt (writer_prog n)) [] s ->
+  prun (pool_init maxt (writer_prog n)) [] s = Some (st, stash) ->
+  (all_done st -> delivered_ids st 0 = job_ids n) /\
+  exists m, (m <= n)%nat /\ delivered_ids st 0 = job_ids m.
+Proof.
+  intros maxt n s st stash W E. split; [intros A; exact (WP2 maxt n s st stash W E A)|exact (WP2_prefix maxt n s st stash W E)].
+Qed.
+Print Assumptions T13w_handler_order.
+
+(* the sorter's unordered handler: every chunk job exactly once, in some order *)
+Theorem T13s_every_chunk_once : forall maxt n s st stash,
+  sched_wf (pool_init maxt (sorter_prog n)) [] s ->
+  prun (pool_init maxt (sorter_prog n)) [] s = Some (st, stash) ->
+  all_done st ->
+  Permutation (delivered_ids st 0) (job_ids n).
+Proof. exact SP1. Qed.
+Print Assumptions T13s_every_chunk_once.
+
+(* the pooled sorter, associative merge function: the conclusion of T06e for the collection order of the pool *)
+Theorem T13s_pooled_sorter :
+  forall (f : bytes -> bytes -> bytes -> bytes) (sort : list entry -> list entry),
+  (forall k a b c, f k (f k a b) c = f k a (f k b c)) ->
+  (forall l, Permutation (sort l) l) -> (forall l, keys_le (sort l)) ->
+  forall max_memory ops,
+  exists s, SorterFull.adds f sort (sorter_init max_memory) ops = Ok s /\
+  exists s1, final_flush (Some (mf f)) sort s = Ok (s1, true) /\
+    forall maxt sc st stash,
+    sched_wf (pool_init maxt (sorter_prog (length (so_chunks s1)))) [] sc ->
+    prun (pool_init maxt (sorter_prog (length (so_chunks s1)))) [] sc = Some (st, stash) ->
+    all_done st ->
+    let cs := collected (so_chunks s1) (delivered_ids st 0) in
+    Permutation cs (so_chunks s1) /\
+    exists s' it, sorter_iter (Some (mf f)) sort (with_chunks s1 cs) = Ok (s', Some it) /\ so_iterating s' = true /\
+      forall n, (length ops <= n)%nat ->
+      let out := mdrain (mf f) (S n) it in
+      StronglySorted (fun a b => bcmp (fst a) (fst b) = Lt) out /\
+      map fst out = all_keys [ops] /\
+      Forall (fun e => exists first rest, Permutation (first :: rest) (vals (fst e) ops) /\
+                                          fold_left (f (fst e)) rest first = snd e) out.
+Proof. exact SP2. Qed.
+Print Assumptions T13s_pooled_sorter.
+
+(* commutative as well: the pooled sorter yields the same entries as the sorter without a pool *)
+Theorem T13s_pooled_sorter_same_entries :
+  forall (f : bytes -> bytes -> bytes -> bytes) (sort : list entry -> list entry),
+  (forall k a b c, f k (f k a b) c = f k a (f k b c)) -> (forall k a b, f k a b = f k b a) ->
+  (forall l, Permutation (sort l) l) -> (forall l, keys_le (sort l)) ->
+  forall max_memory ops,
+  exists s, SorterFull.adds f sort (sorter_init max_memory) ops = Ok s /\
+  exists s1, final_flush (Some (mf f)) sort s = Ok (s1, true) /\
+  exists s0 it0, sorter_iter (Some (mf f)) sort s = Ok (s0, Some it0) /\
+    forall maxt sc st stash,
+    sched_wf (pool_init maxt (sorter_prog (length (so_chunks s1)))) [] sc ->
+    prun (pool_init maxt (sorter_prog (length (so_chunks s1)))) [] sc = Some (st, stash) ->
+    all_done st ->
+    exists s' it, sorter_iter (Some (mf f)) sort (with_chunks s1 (collected (so_chunks s1) (delivered_ids st 0))) = Ok (s', Some it) /\
+      forall n, (length ops <= n)%nat ->
+        mdrain (mf f) (S n) it = mdrain (mf f) (S n) it0 /\ mdrain (mf f) (S n) it = canonical f ops.
+Proof. exact SP3. Qed.
+Print Assumptions T13s_pooled_sorter_same_entries.
+
+(* commutativity is needed for "the same entries as without a pool": a complete run of the LTS (pool of 2, three
+   chunks) that delivers the chunks in the order 0, 2, 1, and a non-commutative merge function (concatenation) *)
+Example T13s_needs_commutativity :
+  let s1 := Properties_C06.ex_state Properties_C06.fcat in
+  match prun (pool_init 2 (sorter_prog (length (so_chunks s1)))) [] ex_sorter_sched with
+  | Some (st, _) =>
+      let cs := collected (so_chunks s1) (delivered_ids st 0) in
+      Properties_C06.ex_out Properties_C06.fcat (with_chunks s1 cs) <> Properties_C06.ex_out Properties_C06.fcat s1
+  | None => False
+  end.
+Proof. pose proof SP3_needs_commutativity as H. cbv zeta in H |- *. destruct (prun _ _ _) as [[st ?]|]; [exact (proj2 H)|exact H]. Qed.
